@@ -5,12 +5,14 @@ Local Open Scope N_scope.
 
 (* ------------------------------------------------------------------ the evaluator, one level *)
 Definition newvar_post (name : str) (ty : dtype) (cst : bool) (owner : N) (id : N) (s : st) : Prop :=
-  exists p, cellmeta id (mkCell name ty cst owner p) s.
+  exists p, cellmeta id (mkCell name ty cst owner p) s /\ (named_kind (dk ty) = true -> dname ty <> None).
 Lemma stable_newvar_post name ty cst owner id : stable (newvar_post name ty cst owner id).
-Proof. intros s s' H [p X]. exists p. eapply stable_cellmeta; eauto. Qed.
+Proof. intros s s' H [p [X Y]]. exists p. split; [eapply stable_cellmeta; eauto|exact Y]. Qed.
+Lemma default_prim_named ty p : default_prim ty = Some p -> named_kind (dk ty) = true -> dname ty <> None.
+Proof. destruct ty as [k n]. destruct k, n; cbn; intros H Hk; try discriminate H; try discriminate Hk; discriminate. Qed.
 
 Ltac stab2 := repeat first [ assumption | apply stable_retok | apply stable_impl | apply stable_and | apply stable_true | apply stable_pure | apply stable_cellmeta | apply stable_ctxkind | apply stable_wr
-                           | apply stable_valok | apply stable_nonconst | apply stable_ownrec | apply stable_resok | apply stable_fits | apply stable_newvar_post
+                           | apply stable_valok | apply stable_nonconst | apply stable_ownrec | apply stable_resok | apply stable_fits | apply stable_hastype | apply stable_arris | apply stable_arrpair | apply stable_typair | apply stable_nfits | apply stable_newvar_post
                            | (apply stable_Forall; intros ?) | (apply stable_Forall2; intros ? ?) ].
 
 (* ------------------------------------------------------------------ Control.v *)
@@ -181,16 +183,16 @@ Proof.
   intros SP. unfold new_var_body. destruct (default_prim ty) as [p|] eqn:Ed.
   - apply tr_alloc_cell; [exact SP| |].
     + intros s _. cbn [c_val c_type]. split; [apply valok_nonrec; intros tn c E; subst p; destruct ty as [k n]; destruct k, n; cbn in Ed; discriminate|].
-      destruct ty as [k n]. destruct k, n; cbn in Ed; inversion Ed; reflexivity.
-    + intros id. eapply tr_post; [apply tr_ret|]. intros a s [-> [_ Hm]]. exists p. exact Hm.
+      destruct ty as [k n]. destruct k, n; cbn in Ed; inversion Ed; (split; [reflexivity|]); intros tn0 Hn0; cbn in Hn0; first [discriminate Hn0|inversion Hn0; reflexivity].
+    + intros id. eapply tr_post; [apply tr_ret|]. intros a s [-> [_ Hm]]. exists p. split; [exact Hm|eapply default_prim_named; eauto].
   - destruct (dk ty) eqn:Ek; try apply tr_failm. destruct (dname ty) as [tn|] eqn:En; try apply tr_failm.
     eapply tr_bind; [exact SP|apply tr_new_ctx; exact SP|]. intros rc.
     eapply tr_bind; [stab2|apply tr_hn; [stab2|hnt hknown]|]. intros dd.
     destruct dd as [body|]; [|apply tr_failm].
     eapply tr_bind; [stab2|apply Hb; stab2|]. intros u.
     apply tr_alloc_cell; [stab2| |].
-    + intros s [[[_ Hk] _] _]. cbn [c_val c_type]. split; [intros tn' c' E; inversion E; subst; exact Hk|]. cbn. first [rewrite Ek; reflexivity|symmetry; exact Ek|reflexivity].
-    + intros id. eapply tr_post; [apply tr_ret|]. intros a s [-> [_ Hm]]. exists (PRec tn rc). exact Hm.
+    + intros s [[[_ Hk] _] _]. cbn [c_val c_type]. split; [intros tn' c' E; inversion E; subst; exact Hk|]. split; [cbn; first [rewrite Ek; reflexivity|symmetry; exact Ek|reflexivity]|]. intros tn0 Hn0. cbn in Hn0. inversion Hn0; subst. first [exact En|rewrite En; reflexivity|reflexivity].
+    + intros id. eapply tr_post; [apply tr_ret|]. intros a s [-> [_ Hm]]. exists (PRec tn rc). split; [exact Hm|]. intros _. rewrite En. discriminate.
 Qed.
 
 Ltac ht known :=
@@ -236,7 +238,9 @@ Lemma tr_case_range_body (P : st -> Prop) v lo hi c : stable P -> tr P (case_ran
 Proof. intros SP. unfold case_range_body; ht evk. Qed.
 
 Lemma newvar_nonconst name ty owner id s : newvar_post name ty false owner id s -> nonconst id s.
-Proof. intros [p H]. eapply cellmeta_nonconst; [exact H|reflexivity]. Qed.
+Proof. intros [p [H _]]. eapply cellmeta_nonconst; [exact H|reflexivity]. Qed.
+Lemma newvar_hastype name ty cst owner id s : newvar_post name ty cst owner id s -> hastype id ty s.
+Proof. intros [p [H Hn]]. eapply cellmeta_hastype; [exact H|reflexivity|exact Hn]. Qed.
 
 Lemma tr_new_array_body (P : st -> Prop) name ty dims owner : stable P -> tr P (new_array_body lim self name ty dims owner) (fun _ _ => True).
 Proof.
@@ -244,7 +248,7 @@ Proof.
   eapply tr_bind; [exact SP|apply tr_hn; [exact SP|unfold alloc_cells, budget_error; hnt hknown]|]. intros u.
   eapply tr_bind; [stab2|apply (tr_repeatM _ _ (newvar_post name ty false owner)); [stab2|intros; apply stable_newvar_post|apply Hv; stab2]|]. intros elems.
   apply tr_alloc_arr; [stab2| |].
-  - intros s [_ HF]. cbn [a_elems]. eapply Forall_impl; [|exact HF]. intros e He0. eapply newvar_nonconst; exact He0.
+  - intros s [_ HF]. cbn [a_elems a_type]. eapply Forall_impl; [|exact HF]. intros e He0. split; [eapply newvar_nonconst; exact He0|eapply newvar_hastype; exact He0].
   - intros aid. eapply tr_true. apply tr_ret.
 Qed.
 
@@ -321,7 +325,7 @@ Qed.
 
 Lemma tr_ret_prim (P : st -> Prop) k p : is_primitive p = true -> payload_kind p = k -> tr P (ret (res_of k p)) (fun r s => resok r s).
 Proof.
-  intros Hprim Hk. eapply tr_post; [apply tr_ret|]. intros a s [-> _] q E. cbn in E. inversion E; subst q. split; [|exact Hk]. apply valok_nonrec. intros tn c ->. discriminate Hprim.
+  intros Hprim Hk. eapply tr_post; [apply tr_ret|]. intros a s [-> _] q E. cbn in E. inversion E; subst q. split; [|split; [exact Hk|]]. { apply valok_nonrec. intros tn c ->. discriminate Hprim. } intros tn Hn. destruct p; cbn in Hn, Hprim; discriminate.
 Qed.
 Lemma tr_run_builtin (P : st -> Prop) n fc args : stable P -> tr P (run_builtin n fc args) (fun r s => resok r s).
 Proof.
